@@ -468,6 +468,8 @@ func (e *Exec) doCall(common *ssa.CallCommon, fnv Val, recv *Val, args []Val, st
 	e.callOrd[key]++
 	ord := e.callOrd[key]
 	tracks := e.matchTracks(common)
+	e.ghostAt(ci.name, ord, true, st)
+	defer e.ghostAt(ci.name, ord, false, st)
 	pre := st.heap
 
 	// result values
@@ -500,8 +502,6 @@ func (e *Exec) doCall(common *ssa.CallCommon, fnv Val, recv *Val, args []Val, st
 		}
 	}
 
-	e.ghostAt(ci.name, ord, true, st)
-	defer e.ghostAt(ci.name, ord, false, st)
 	if ci.con == nil {
 		// unknown callee: everything may change, result arbitrary
 		if ci.fn != nil && e.c.P.isZapPkg(pkgOf(ci.fn)) {
